@@ -77,7 +77,7 @@ def data_case(draw, signer_kinds=None, max_total=70000):
     return {'kind': 'data', 'name': _steer_name(draw, draw(S.name(0, 6, allow_digest_types=True)), max_total),
             'name_rep': draw(st.integers(0, 9)),
             'meta': meta, 'payload': draw(payload_spec(max_total)),
-            'signer': draw(K.signer_spec(signer_kinds)), 'reuse': draw(st.booleans())}
+            'signer': draw(K.signer_spec(signer_kinds)), 'reuse': draw(st.booleans()), 'nested': draw(st.integers(0, 5)) == 0}
 
 
 @st.composite
@@ -102,7 +102,7 @@ def interest_case(draw, signer_kinds=None, max_total=70000):
         'forwarding_hint': draw(st.lists(S.name(0, 3, max_len=10, allow_digest_types=False), max_size=3)),
     }
     return {'kind': 'interest', 'name': name, 'name_rep': draw(st.integers(0, 9)), 'digest_pos': digest_pos,
-            'params': params, 'payload': payload, 'signer': signer, 'reuse': draw(st.booleans()),
+            'params': params, 'payload': payload, 'signer': signer, 'reuse': draw(st.booleans()), 'nested': draw(st.integers(0, 5)) == 0,
             'sig_time': draw(st.integers(0, 2 ** 48)), 'sig_nonce': draw(st.integers(1, 2 ** 64 - 1))}
 
 
